@@ -529,14 +529,41 @@ def _fixed_inputs(case, seed):
     return mod, data
 
 
-def run_F(case, ctx):
+def _undefined_real(mod, data, method):
+    """the comparison measure (or the pooled RDM of the noise ceiling) is undefined for these RDMs"""
+    from scipy.stats import rankdata
+    cos = method in ('cosine', 'cosine_cov')
+
+    def deg(v):
+        return bool(np.max(np.abs(v)) < 1e-12) if cos else bool(np.ptp(v) < 1e-12)
+
+    def pool(rows):
+        if cos:
+            z = [r / np.sqrt(np.mean(r ** 2)) for r in rows]
+        elif method in ('corr', 'corr_cov'):
+            z = [(r - np.mean(r)) / np.std(r) for r in rows]
+        else:
+            z = [rankdata(r) for r in rows]
+        return np.mean(np.array(z), axis=0)
+    rows = [np.asarray(r, dtype=float) for r in data]
+    if any(deg(r) for r in rows) or any(deg(np.asarray(r, dtype=float)) for r in mod):
+        return True
+    sets = [rows] + [rows[:i] + rows[i + 1:] for i in range(len(rows))]
+    return any(deg(pool(st)) for st in sets if st)
+
+
+F_CFG = {'var': 'eval_fixed', 'cv': 'fixed', 'nc': 'fixed', 'ndim': '>2'}
+
+
+def _F_execute(case, ctx):
+    """run eval_fixed for the base order and every reordering; -> record for _F_judge or None"""
     import rsatoolbox.inference.evaluate as evaluate
     from rsatoolbox.model import ModelFixed
     from rsatoolbox.rdm import RDMs
     m, n = case['m'], case['n']
     patched = case['mode'] == 'patched'
     method = case.get('method', 'cosine')
-    cfg = {'var': 'eval_fixed', 'cv': 'fixed', 'nc': 'fixed', 'ndim': '>2'}
+    cfg = F_CFG
     if patched:
         vals = case['vals']
         if vals[0] == 'A':
@@ -549,6 +576,9 @@ def run_F(case, ctx):
         data = RDMs(np.arange(3.0 * n).reshape(n, 3) + 1.0)
     else:
         mod, dvec = _fixed_inputs(case, ctx.seed)
+        if _undefined_real(mod, dvec, method):
+            ctx.exclude('comparison measure / pooled RDM undefined (zero-norm or constant RDM)')
+            return None
         models = [ModelFixed('model%d' % i, mod[i]) for i in range(m)]
         data = RDMs(dvec)
         E = None
@@ -574,61 +604,90 @@ def run_F(case, ctx):
 
     ident = tuple(range(m))
     types = ['t-test']
+    rec = None
     with ctx.guard('eval_fixed|n_model=%s' % ('1' if m == 1 else '>1'), case):
         R = run(ident)
         per_subject = np.asarray(R.evaluations, dtype=float)[0]
         if per_subject.shape != (m, n):
             ctx.fail('eval_fixed|any|evaluations-shape', case, 'shape %r' % (R.evaluations.shape,))
-            return
+            return None
         if patched and not np.array_equal(per_subject, E):
             from mc.runner import HarnessError
             raise HarnessError('replaced compare() is not what eval_fixed stored: binding lost')
         if not np.isfinite(per_subject).all():
             ctx.exclude('comparison measure undefined for an RDM (NaN evaluation)')
-            return
+            return None
         ceiling = float(np.asarray(R.noise_ceiling, dtype=float)[0])
         if not np.isfinite(ceiling):
             ctx.exclude('noise ceiling undefined')
-            return
+            return None
         base = observe(R, types)
         ctx.case(case)
         judge_raises(ctx, base, cfg, case)
         judge_ranges(ctx, base, cfg, case, m)
-        want = ref.classical_tests(per_subject, ceiling)
-        detail = 'per-subject evaluations %r, ceiling %r' % (per_subject.tolist(), ceiling)
-
-        def cmp(name, want_arr, okmask, kind):
-            r = base.get(name)
-            if r is None or r[0] != 'ok':
-                return
-            got = np.asarray(r[1], dtype=float)
-            if got.shape != want_arr.shape:
-                ctx.fail(sig_for(name, cfg, 'shape'), case, '%s shape %r' % (name, got.shape))
-                return
-            n_ex = int((~okmask).sum())
-            for _ in range(n_ex // (2 if got.ndim == 2 else 1)):
-                ctx.exclude('t statistic undefined (zero variance)')
-            if okmask.any():
-                ctx.dev(name, maxreldev(got[okmask], want_arr[okmask]))
-                if not allclose(got[okmask], want_arr[okmask], TOL):
-                    ctx.fail('eval_fixed|%s|%s' % (name.partition(':')[0], kind), case,
-                             '%s = %r, scipy %r; %s' % (name, got.tolist(), want_arr.tolist(), detail))
-        allok = np.ones(m, dtype=bool)
-        cmp('sem', want['sem'], allok, 'differs-from-classical-sem')
-        mean_ref = ref.nan_mean_per_model(R.evaluations)
-        cmp('means', mean_ref, allok, 'not-the-nan-aware-mean')
-        for suffix in ('', '_all'):
-            cmp('p_pair%s:t-test' % suffix, want['p_pair'], want['pair_ok'] | np.eye(m, dtype=bool),
-                'differs-from-paired-t-test')
-            cmp('p_zero%s:t-test' % suffix, want['p_zero'], want['var_ok'], 'differs-from-one-sided-one-sample-t-test')
-            cmp('p_noise%s:t-test' % suffix, want['p_nc'], want['var_ok'], 'differs-from-two-sided-one-sample-t-test')
-        ctx.outcome(('F', np.round(want['p_zero'], 6).tolist()))
+        rec = {'case': case, 'base': base, 'per_subject': per_subject, 'ceiling': ceiling,
+               'mean_ref': ref.nan_mean_per_model(R.evaluations)}
+    if rec is None:
+        return None
     for perm in list(itertools.permutations(range(m)))[1:]:
         sub = dict(case, perm=list(perm))
         with ctx.guard('eval_fixed|n_model=%s' % ('1' if m == 1 else '>1'), sub):
             obs = observe(run(perm), types)
             ctx.case(sub)
             judge_equivariance(ctx, base, obs, perm, m, cfg, sub)
+    return rec
+
+
+def _F_judge(rec, want, ctx):
+    """eval_fixed output against the classical t statistics of the per-subject evaluations"""
+    case, base, per_subject, ceiling = rec['case'], rec['base'], rec['per_subject'], rec['ceiling']
+    m = per_subject.shape[0]
+    cfg = F_CFG
+    detail = 'per-subject evaluations %r, ceiling %r' % (per_subject.tolist(), ceiling)
+
+    def cmp(name, want_arr, okmask, kind):
+        r = base.get(name)
+        if r is None or r[0] != 'ok':
+            return
+        got = np.asarray(r[1], dtype=float)
+        if got.shape != want_arr.shape:
+            ctx.fail(sig_for(name, cfg, 'shape'), case, '%s shape %r' % (name, got.shape))
+            return
+        n_ex = int((~okmask).sum()) // (2 if got.ndim == 2 else 1)
+        if n_ex:
+            ctx.excluded['t statistic undefined (zero variance)'] += n_ex
+        if okmask.any():
+            ctx.dev(name, maxreldev(got[okmask], want_arr[okmask]))
+            if not allclose(got[okmask], want_arr[okmask], TOL):
+                ctx.fail('eval_fixed|%s|%s' % (name.partition(':')[0], kind), case,
+                         '%s = %r, scipy %r; %s' % (name, got.tolist(), want_arr.tolist(), detail))
+    allok = np.ones(m, dtype=bool)
+    cmp('sem', want['sem'], allok, 'differs-from-classical-sem')
+    cmp('means', rec['mean_ref'], allok, 'not-the-nan-aware-mean')
+    for suffix in ('', '_all'):
+        cmp('p_pair%s:t-test' % suffix, want['p_pair'], want['pair_ok'] | np.eye(m, dtype=bool),
+            'differs-from-paired-t-test')
+        cmp('p_zero%s:t-test' % suffix, want['p_zero'], want['var_ok'], 'differs-from-one-sided-one-sample-t-test')
+        cmp('p_noise%s:t-test' % suffix, want['p_nc'], want['var_ok'], 'differs-from-two-sided-one-sample-t-test')
+    ctx.outcome(('F', np.round(want['p_zero'], 6).tolist()))
+
+
+def _F_judge_batch(recs, ctx):
+    """the scipy reference for many records in a few calls (grouped by array shape)"""
+    groups = {}
+    for rec in recs:
+        groups.setdefault(rec['per_subject'].shape, []).append(rec)
+    for shape, rs in groups.items():
+        with ctx.guard('eval_fixed|reference', rs[0]['case']):
+            wants = ref.classical_tests_batch(np.array([r['per_subject'] for r in rs]), [r['ceiling'] for r in rs])
+            for rec, want in zip(rs, wants):
+                _F_judge(rec, want, ctx)
+
+
+def run_F(case, ctx):
+    rec = _F_execute(case, ctx)
+    if rec is not None:
+        _F_judge_batch([rec], ctx)
 
 
 # ----------------------------------------------------------------------------- family M
@@ -791,7 +850,8 @@ def shards(tier, seed):
                 out.append({'fam': 'T', 'kind': 'alpha', 'shape': list(shape), 'mode': mode, 'alpha': alpha,
                             'ncf': ncf, 'range': rng, 'types': types})
     # ---- F: eval_fixed with replaced compare: every per-subject evaluation matrix over the alphabet
-    planF = [(1, 2, 'q4'), (1, 3, 'q4'), (1, 4, 'q4'), (2, 2, 'q4'), (2, 3, 'q4'), (3, 2, 'q4'), (4, 2, 'q2')]
+    planF = [(1, 2, 'q4'), (1, 3, 'q4'), (1, 4, 'q4'), (2, 2, 'q4'), (2, 3, 'q4'), (3, 2, 'q4' if th else 'q3'),
+             (4, 2, 'q2')]
     if th:
         planF += [(2, 4, 'q4'), (3, 3, 'q3'), (4, 2, 'q3'), (1, 5, 'q4')]
     for m, n, alpha in planF:
@@ -805,7 +865,7 @@ def shards(tier, seed):
         for method in ['cosine', 'corr', 'spearman'] + (['tau-a', 'rho-a', 'cosine_cov'] if th else []):
             out.append({'fam': 'F', 'mode': 'real', 'm': m, 'method': method, 'ns': [2, 3, 4, 5],
                         'n_conds': [3, 4] + ([5] if th else []), 'fills': 5 if th else 2})
-    for m in (1, 2, 3):
+    for m in ((1, 2, 3) if th else (1, 2)):
         for method in ('cosine', 'corr'):
             total = 3 ** 6
             for rng in _chunks(total, 243):
@@ -853,27 +913,31 @@ def run_shard(shard, ctx):
                 run_case({'fam': 'T', 'shape': shape, 'mask': [], 'ncf': shard['ncf'], 'vc': 'b',
                           'types': shard['types'], 'vals': [shard['mode'], shard['alpha'], idx]}, ctx)
     elif fam == 'F':
+        cases = []
         if shard['mode'] == 'patched':
             if 'range' in shard:
                 for idx in range(*shard['range']):
-                    run_case({'fam': 'F', 'mode': 'patched', 'm': shard['m'], 'n': shard['n'],
-                              'vals': ['A', shard['alpha'], idx], 'lo': 0.25 if idx % 2 else 0.3}, ctx)
+                    cases.append({'fam': 'F', 'mode': 'patched', 'm': shard['m'], 'n': shard['n'],
+                                  'vals': ['A', shard['alpha'], idx], 'lo': 0.25 if idx % 2 else 0.3})
             else:
                 for n in shard['ns']:
                     for fill in range(shard['fills']):
-                        run_case({'fam': 'F', 'mode': 'patched', 'm': shard['m'], 'n': n, 'vals': ['B', fill],
-                                  'lo': 0.4}, ctx)
+                        cases.append({'fam': 'F', 'mode': 'patched', 'm': shard['m'], 'n': n, 'vals': ['B', fill],
+                                      'lo': 0.4})
         else:
             if 'range' in shard:
                 for idx in range(*shard['range']):
-                    run_case({'fam': 'F', 'mode': 'real', 'm': shard['m'], 'n': shard['n'], 'n_cond': shard['n_cond'],
-                              'method': shard['method'], 'vals': ['A', shard['alpha'], idx]}, ctx)
+                    cases.append({'fam': 'F', 'mode': 'real', 'm': shard['m'], 'n': shard['n'],
+                                  'n_cond': shard['n_cond'], 'method': shard['method'],
+                                  'vals': ['A', shard['alpha'], idx]})
             else:
                 for n in shard['ns']:
                     for n_cond in shard['n_conds']:
                         for fill in range(shard['fills']):
-                            run_case({'fam': 'F', 'mode': 'real', 'm': shard['m'], 'n': n, 'n_cond': n_cond,
-                                      'method': shard['method'], 'vals': ['B', fill]}, ctx)
+                            cases.append({'fam': 'F', 'mode': 'real', 'm': shard['m'], 'n': n, 'n_cond': n_cond,
+                                          'method': shard['method'], 'vals': ['B', fill]})
+        recs = [r for r in (_F_execute(c, ctx) for c in cases) if r is not None]
+        _F_judge_batch(recs, ctx)
     elif fam == 'M':
         m = shard['m']
         for level in range(len(VAR_LEVELS)):
